@@ -180,8 +180,8 @@ def handle (fn : String) : Handler := fun a impl =>
       relSpec impl (bitCount v = b ∧ isP v ∧ v % (2*n) = 1) "prime of the requested size, 1 mod 2N"
     some (fR toString model, spec)
   | "max_bit_count", [n, sec] =>
-    let v := toString (maxBitCount (pNat n) (pSec sec))
-    some (v, v)
+    -- model: the table regenerated from the source; spec: the published standard (Spec.Ctx.heStandardTernary)
+    some (toString (maxBitCount (pNat n) (pSec sec)), toString (Spec.Ctx.heStandardTernary (pSec sec) (pNat n)))
   | "bfv_default", [n, sec] =>
     let n := pNat n; let sec := pSec sec
     let model := bfvDefault n sec
